@@ -71,8 +71,14 @@ class Prop:
         return []
 
     def fixed_cases(self):
-        """Cases always run (regressions for fixed findings, seeds from the repo's tests)."""
-        return []
+        """Cases always run: shrunk reproducers of findings that were fixed (regress/<id>-*.json)."""
+        import glob
+        out = []
+        for fn in sorted(glob.glob(os.path.join(ROOT, 'regress', self.id + '-*.json'))):
+            with open(fn) as f:
+                obj = json.load(f)
+            out.append(obj['case'] if isinstance(obj, dict) and 'case' in obj else obj)
+        return out
 
     def known_match(self, finding, case, outcome) -> bool:
         """Does this failure belong to a *recorded* finding?"""
